@@ -384,7 +384,7 @@ def control_handmade(ctx):
     control(ctx, "C15.R6", "format! -> RawValue::from_string", lambda r: _handmade_scan(ctx.F, r, ("verif_fixtures",), 1))
 
 
-def _borrowed_str_scan(F, R, crate_pat):
+def _borrowed_str_scan(F, R, crate_pat, rule="C15.R7"):
     """a `&str` (or `&[u8]`) deserialised from JSON exists only when the string has no escape sequences: serde_json cannot
     borrow an escaped string and fails with 'expected a borrowed string'. Wire types must deserialise strings through a
     visitor's visit_str or into Cow/String."""
@@ -404,7 +404,7 @@ def _borrowed_str_scan(F, R, crate_pat):
             else:
                 continue
             if re.match(r"^&('\w+ )?(str|\[u8\])$", st):
-                R.bad("C15.R7", "%s:borrowed-%s" % (fkey(b), "str" if "str" in st else "bytes"), "%s deserialises a borrowed `%s`: a JSON string written with escapes (e.g. \"2\\u002e0\") is the same value but cannot be borrowed, so the message is rejected" % (short(b.path), st), where(c))
+                R.bad(rule, "%s:borrowed-%s" % (fkey(b), "str" if "str" in st else "bytes"), "%s deserialises a borrowed `%s`: a JSON string written with escapes (e.g. \"2\\u002e0\") is the same value but cannot be borrowed, so the message is rejected" % (short(b.path), st), where(c))
     return n
 
 
